@@ -7,6 +7,7 @@ choice of the schedule derives from random.Random(seed); the ops actually execut
 """
 import json
 import multiprocessing
+import collections
 import os
 import random
 import sys
@@ -24,7 +25,7 @@ MODES_BY_PROP = {
     "C06": ["plain", "busy", "local", "plain", "busy", "local", "faults", "batchfaults", "flaky", "resubmit"],
     "C09": ["plain", "busy", "cancel"], "C11": ["faults", "faults", "faults", "nodefaults"],
     "C12": ["batchfaults", "batchfaults", "batchfaults", "nodefaults"], "C14": ["cancel"],
-    "C16": ["hooks", "hooks", "hookslocal"], "C13": ["resubmit"], "C07": ["resubmit"],
+    "C16": ["hooks", "hooks", "hookslocal"], "C13": ["resubmit"], "C07": ["resubmit"], "C08": ["plain", "busy"],
 }
 # modes added to a property's list on top of its original ones: the original modes keep their number of cases
 ADDED_MODES = {"C01": ("resubmit",), "C02": ("resubmit", "nodefaults"), "C06": ("faults", "batchfaults", "flaky", "resubmit"),
@@ -891,6 +892,13 @@ class Run:
                     self.bad("C03", "progress.incomplete", "the fault-free run did not complete")
             elif results is not None:
                 self.check_final_results(results, "C03")
+                if not sc.get("local"):
+                    # C08 at system level: every recorded result is reported as newly completed to exactly one submitter round
+                    reported = collections.Counter(j for e in tr if e[1] == "persist" for j in e[5])
+                    for k in sorted({r[1] for r in vc.read_rows()}):
+                        if reported[k] != 1:
+                            self.bad("C08", "reported.not_once", f"the result of job {k} was reported as newly completed to {reported[k]} "
+                                     "submitter rounds (update_job_status calls), expected exactly one")
                 if results["missing_jobs"] and mc:
                     self.bad("C05", "complete.jobs_without_result", f"the completion flag was set in a fault-free run while jobs "
                              f"{sorted(jid(m) for m in results['missing_jobs'])} have no result")
@@ -1778,7 +1786,7 @@ class SystemSuite(Suite):
         for i in range(n):
             mode = modes[i % len(modes)]
             sc = gen_scenario(rng, mode)
-            if prop in ("C03", "C04", "C02") and mode in ("plain", "busy") and i % 3 == 2:
+            if prop in ("C03", "C04", "C02", "C08") and mode in ("plain", "busy") and i % 3 == 2:
                 from suites import sysgen
                 sc = sysgen.cancel_chain(rng)        # structured family: failing root + flagged chains across batches
             if mode == "resubmit" and prop == "C07":
